@@ -67,6 +67,40 @@ def rand_elem(rng):
 
 
 # ------------------------------------------------------------------ sequence models
+def const_steps(rng):
+    """the const overloads: const globals provided by the harness and literals, hostile indices, const range views"""
+    tag = rng.randrange(10**6)
+    name, items, rend = rng.choice([("cvec3", [10, 20, 30], r_int), ("cvec0", [], r_int), ("cstr5", list("const"), r_char), ("cstr0", [], r_char),
+                                    ('"abc"', list("abc"), r_char)])
+    n = len(items)
+    out = []
+    for _ in range(rng.randrange(1, 4)):
+        i = idx_choices(rng, n)
+        if name.startswith('"'):
+            # a literal lives in the parse tree of this very evaluation: consume the element inside the expression instead of handing a reference
+            # to it back to C++ (that hand-over is the recorded C11 finding, not a bounds matter)
+            out.append(Step("(%s[%s] + 0)" % (name, lit(i)), "val", r_int(ord(items[i]))) if 0 <= i < n else Step("(%s[%s] + 0)" % (name, lit(i)), "throw"))
+        else:
+            out.append(Step("%s[%s]" % (name, lit(i)), "val", rend(items[i])) if 0 <= i < n else Step("%s[%s]" % (name, lit(i)), "throw"))
+    if name.startswith("cvec"):
+        for fn in ("front", "back"):
+            out.append(Step("%s.%s()" % (name, fn), "val", rend(items[0 if fn == "front" else -1])) if n else Step("%s.%s()" % (name, fn), "throw"))
+    if not name.startswith('"'):
+        out.append(Step("var cr%d = range(%s); cr%d.empty()" % (tag, name, tag), "val", r_val(n == 0)))
+        lo, hi = 0, n
+        for _ in range(rng.randrange(1, 6)):
+            ro = rng.choice(["front", "back", "pop_front", "pop_back"])
+            empty = lo >= hi
+            if ro in ("front", "back"):
+                out.append(Step("cr%d.%s()" % (tag, ro), "throw") if empty else Step("cr%d.%s()" % (tag, ro), "val", rend(items[lo if ro == "front" else hi - 1])))
+            elif empty:
+                out.append(Step("cr%d.%s()" % (tag, ro), "throw"))
+            else:
+                lo, hi = (lo + 1, hi) if ro == "pop_front" else (lo, hi - 1)
+                out.append(Step("cr%d.%s()" % (tag, ro), "any"))
+    return out
+
+
 class SeqModel:
     """Vector / List of cells; a cell is [value, frozen]."""
 
@@ -509,7 +543,7 @@ def run(ctx, tier, seed, scale=1.0):
         dumps = [mdl.dump()]
         L = rng.randrange(3, maxlen)
         while len(steps) < L:
-            for st in mdl.step():
+            for st in (mdl.step() if rng.random() < 0.9 else const_steps(rng)):
                 steps.append(st)
                 dumps.append(mdl.dump())
         cases.append(["SEQ", var] + [s.src for s in steps])
